@@ -1,8 +1,8 @@
 (* Extraction for the C13 driver (ocaml/driver_interp.ml): the Script specification incl. the
    instrumented execution, and the interpreter model. ExtrOcamlBasic only. *)
 From Coq Require Extraction ExtrOcamlBasic.
-From Verif Require Import Spend SpendWpkh ExecTrace Ast TypeCheck InterpModel.
+From Verif Require Import Spend SpendWpkh ExecTrace Ast TypeCheck InterpModel InterpTxdataModel.
 Extraction Language OCaml.
 Extraction "model_interp.ml" verify_spend verify_spend_ext parse_script exec exec_tr checks accepts_tr
   with_sv serialize pushonly_stack p2pkh_script spk_is_p2wpkh spk_is_p2sh spk_is_p2wsh spk_is_p2tr
-  num_encode type_of elem_of astack_of_items interp interp_pk interp_rec rel_norm.
+  num_encode type_of elem_of astack_of_items interp interp_pk interp_rec rel_norm from_txdata conc sv_of.
